@@ -8,6 +8,7 @@ from decimal import Decimal
 from pathlib import Path
 
 import core
+import c18_edits
 from core import hx, unhx, err_class
 
 ALPHA = ["a", "(", ")", "\\", "\r", "\u015c", "\u5c5c", "\u2829", "\ufeff", "\0"]
@@ -862,6 +863,11 @@ def run(ctx: core.Run):
                      "embedded engine data was left as raw bytes (parse failed)", {"len": len(raw)},
                      type(ed.value).__name__, "EngineData")
     n_layers = api_exposure(ctx, psd_files)
+    # ------------------------------------------------------------------ in-place edits, for every way a tree is obtained
+    import time as _time
+    t_ed = _time.time()
+    n_edit_cases = c18_edits.run_stage(ctx, quick)
+    ctx.extra["edit_stage_seconds"] = round(_time.time() - t_ed, 1)
     ctx.extra["embedded"] = {"psd_files": len(psd_files), "psd_read_errors": psd_errors[:5],
                              "engine_blobs": len(set(psd_blobs)), "engine_blobs_identical": n_blob_ident,
                              "type_tool_blocks": n_tysh, "type_layers_via_api": n_layers}
@@ -875,7 +881,15 @@ def run(ctx: core.Run):
         "lists; each in both layouts. Parser/tokenizer: all written outputs, the 6 fixture blobs, every engine-data blob "
         "of the fixture PSDs, token-level mutations of those. Classifier: every byte string up to length %d over an "
         "18-byte alphabet + affix mutations, against the live EngineToken regexes. A case is non-trivial when the tree "
-        "/ blob is non-empty; distinct = distinct (kind, layout, tree or bytes)."
+        "/ blob is non-empty; distinct = distinct (kind, layout, tree or bytes). Edits: engine data obtained every way the "
+        "library hands it out (frombytes of the fixture blobs in both classes, trees built in memory, "
+        "TypeToolObjectSetting.frombytes of every fixture document's first type layer, TypeLayer.engine_dict / "
+        "resource_dict / document_resources / the tagged block of type layers of every fixture document, the document-level "
+        "Txt2 block) is edited IN PLACE at the shallowest site below the top level, at the deepest site and at random sites "
+        "(replace a leaf / a subtree, assign .value of a leaf object, append / insert into a list, insert a key, delete a "
+        "key / an item), also left unedited; then write -> read must give the edited tree, a second write the same bytes, "
+        "an equal tree made of fresh objects the same bytes, and the enclosing block / the saved and reopened document the "
+        "edited tree with the other type layers unchanged."
         % ("2" if quick else "3", " + 150 of length 3" if quick else " (exhaustive)", maxlen))
     ctx.exhaustive = not quick
     ctx.model_coverage = {
@@ -883,7 +897,8 @@ def run(ctx: core.Run):
                      "Dict.write", "List.write", "EngineData/EngineData2 defaults", "String (escape/unescape, utf-16)",
                      "Integer", "Float (on decimals)", "Bool", "Property", "Tag"],
         "python_side_only": ["float <-> '%.8f' (CPython)", "TypeToolObjectSetting / DescriptorBlock framing (C01)",
-                             "TypeLayer API accessors"],
+                             "TypeLayer API accessors", "in-place edits of parsed trees (the model's write is a function of "
+                             "the tree by construction; that the code's write is one is checked by the edit stage)"],
     }
     ctx.notes += NOTES
     if ctx.tier == "thorough":
@@ -957,7 +972,9 @@ def _j(o):
 def replay(ctx, data):
     inp = data.get("input") or {}
     print("replaying", data.get("signature"))
-    if "tree" in inp:
+    if "origin" in inp:
+        c18_edits.replay(inp)
+    elif "tree" in inp:
         c = unjson(inp["tree"])
         for layout, clsname in LAYOUTS:
             if inp.get("layout") in (None, layout):
